@@ -360,6 +360,12 @@ def mk_cmp(pyop: str, a, b):
     if pyop == 'notin':
         return mk_not(mk_cmp('in', a, b))
     op = {'<': 'lt', '<=': 'le', '==': 'eq', '!=': 'ne', 'is': 'is', 'in': 'in'}[pyop]
+    if op in ('lt', 'le', 'eq', 'ne'):
+        # element-wise comparisons of the values of a column are comparisons of the column (row by row)
+        if tag(a) == 'vals' and tag(a[1]) in ('col', 'mask', 'cols'):
+            a = a[1]
+        if tag(b) == 'vals' and tag(b[1]) in ('col', 'mask', 'cols'):
+            b = b[1]
     if op == 'is' and a == NONE and b != NONE:
         a, b = b, a                 # `None is x` is `x is None`
     # a value chosen on different paths compared with a constant: the comparison of each alternative on its path
@@ -456,6 +462,9 @@ def mk_attr(base, name: str):
         return ('index', base)
     if name == 'columns':
         return ('columns', base)
+    if name == 'size' and (tg in ('index', 'col', 'vals', 'mask', 'rows') or (
+            tg == 'call' and base[1] in (('g', 'numpy.unique'), ('g', 'numpy.array'), ('g', 'numpy.asarray')))):
+        return ('call', ('g', 'builtins.len'), (base,), ())      # number of elements of a 1-D object
     if name in DATA_COLS and tg not in ('g', 'c', 'new'):
         return ('col', base, name)
     return ('attr', base, name)
@@ -477,6 +486,8 @@ def _rowsel(base, sel, kind):
         return base
     if boolish(sel):
         return mk_mask(base, sel)
+    if kind == 'lab' and tag(sel) == 'sub' and sel[1] == ('index', base) and not boolish(sel[2]) and tag(sel[2]) != 'slice':
+        return ('rows', base, 'pos', sel[2])          # x.at[x.index[i], c] is x.iat[i, c]
     return ('rows', base, kind, sel)
 
 
@@ -495,6 +506,8 @@ def mk_mask(base, cond):
 
 def mk_sub(base, idx):
     tg = tag(base)
+    if tg == 'attr' and base[2] == 'shape' and idx == C(0):
+        return ('call', ('g', 'builtins.len'), (base[1],), ())       # x.shape[0] is len(x)
     if tg == 'acc':
         kind, obj = base[1], base[2]
         lab = 'lab' if kind in ('loc', 'at') else 'pos'
